@@ -289,6 +289,18 @@ def rule_e(ctx):
         rd = ret_descs(F, mw)
         ok = all(x[0] == 'bin' and x[1] == 'Mul' and D.has_const(x, 2) and D.has_field(x, 'current_mtu') for _, x in rd)
         ctx.check(ok and rd, 'e', 'minimum_window_is_2_mtu', mw, mw.where(), '2 * current_mtu', 'minimum_window() is no longer 2*current_mtu: %s' % [D.render(x) for _, x in rd])
+    # on_mtu_update: the floor must be computed from the NEW mtu (store of current_mtu dominates minimum_window())
+    for ty in ('NewReno', 'Cubic'):
+        mu = ctx.pfn('<%s as Controller>::on_mtu_update' % ty)
+        sts = [w.bb for w in field_writes(F, ty, 'current_mtu', crate='quinn_proto', include_borrows=False) if w.body.id == mu.id]
+        mws = mu.calls_to('%s::minimum_window' % ty)
+        ctx.floor('e', ty + '_mtu_update_floor_sites', len(mws), 1)
+        for c in mws:
+            p = path_avoiding(mu, [0], [c.bb], sts)
+            ctx.check(bool(sts) and p is None, 'e', 'mtu_update_floor_uses_new_mtu', mu, c.where(), 'current_mtu = new_mtu precedes minimum_window()',
+                      '%s::on_mtu_update clamps the window with the minimum computed from the OLD mtu (current_mtu is stored after minimum_window())' % ty)
+        for w, v in [(w, describer(F, mu).rvalue(w.rv, w.bb, w.idx, 0)) for w in field_writes(F, ty, 'current_mtu', crate='quinn_proto', include_borrows=False) if w.body.id == mu.id and w.rv]:
+            ctx.check(D.has_param(v, name='new_mtu') and not D.const_offsets(v), 'e', 'mtu_update_stores_new_mtu', mu, w.where(), D.render(v), 'current_mtu is not set to the new mtu: ' + D.render(v))
     # BBR
     bbr_cc = ctx.pfn('Bbr::calculate_cwnd')
     stores = [w for w in window_stores(ctx, 'Bbr', 'cwnd') if w.body.id == bbr_cc.id]
